@@ -89,6 +89,128 @@ def _user_classes():
 USER_ENCODER, USER_DECODER_FAILSAFE, USER_DECODER_STRICT = _user_classes()
 
 
+# ---- application-defined subtypes of the metamodel classes.  The readers construct them through the `object_class` parameter of
+# their constructor methods ("allows constructing instances of subtypes", json_deserialization.py module docstring); the writer
+# handles them through isinstance().  Generic: every constructor method of the decoder whose `object_class` default is a class
+# gets an override passing a dynamically created direct subclass of that default - no list of classes here.
+def _subtype_decoder(base, exact=frozenset()):
+    """`exact`: names of classes that are constructed as they are (see exact_types)"""
+    import inspect
+    from basyx.aas import model
+    subs, ns, holder = {}, {}, {}
+    for name, fn in inspect.getmembers(base, predicate=inspect.ismethod):
+        if not name.startswith("_construct_"):
+            continue
+        par = inspect.signature(fn).parameters.get("object_class")
+        # Referables: the classes rendered with a modelType, which the writer derives from the MRO ("inherits from a known AAS
+        # type"); the writer's tables for references etc. are keyed by the exact class, which is not this property's matter
+        if par is None or par.default is par.empty or not inspect.isclass(par.default) or par.default.__name__ in exact \
+                or not issubclass(par.default, model.Referable):
+            continue
+        if par.default not in subs:
+            subs[par.default] = type("App" + par.default.__name__, (par.default,), {"__doc__": "an application-defined subtype"})
+
+        def make(name, sub, signature):
+            def construct(cls, *a, **kw):
+                # like `def _construct_x(cls, dct, object_class=Sub)`: an object_class the caller names itself is kept
+                if "object_class" not in signature.bind_partial(*a, **kw).arguments:
+                    kw["object_class"] = sub
+                return getattr(super(holder["cls"], cls), name)(*a, **kw)
+            construct.__name__ = name
+            return classmethod(construct)
+        ns[name] = make(name, subs[par.default], inspect.signature(fn))
+    holder["cls"] = type("AppSubtype" + base.__name__, (base,), ns)
+    return holder["cls"], subs
+
+
+_SUBTYPE = {}
+
+
+def exact_types(d):
+    """the classes a document names as typeValueListElement: SubmodelElementList accepts only items whose type IS that class
+    (constraint AASd-108, deliberately not isinstance - model/submodel.py), so these stay unsubtyped in that document"""
+    if isinstance(d, list):
+        return frozenset().union(*[exact_types(x) for x in d]) if d else frozenset()
+    if isinstance(d, dict):
+        own = frozenset([d["typeValueListElement"]]) if isinstance(d.get("typeValueListElement"), str) else frozenset()
+        return own.union(*[exact_types(x) for x in d.values()]) if d else own
+    return frozenset()
+
+
+def subtype_decoders(exact=frozenset()):
+    if exact not in _SUBTYPE:
+        from basyx.aas.adapter.json import (AASFromJsonDecoder, StrictAASFromJsonDecoder, StrippedAASFromJsonDecoder,
+                                            StrictStrippedAASFromJsonDecoder)
+        _SUBTYPE[exact] = {key: _subtype_decoder(base, exact) for key, base in (
+            ("full", AASFromJsonDecoder), ("strict", StrictAASFromJsonDecoder),
+            ("stripped", StrippedAASFromJsonDecoder), ("strict-stripped", StrictStrippedAASFromJsonDecoder))}
+    return _SUBTYPE[exact]
+
+
+def subtype_case(cls, full, want_canon):
+    """`full` (the full JSON of a generated object) is read with a decoder that constructs application-defined subtypes of
+    every metamodel class; the resulting object is rendered at both levels by the shipped encoders and the user-declared one.
+    Yields (kind, difference, data) when a stripped rendering is not the full rendering OF THE SAME OBJECT minus the detachable
+    members, or when the stripped subtype-constructing readers do not deliver the stripped object."""
+    from basyx.aas.adapter.json import AASToJsonEncoder, StrippedAASToJsonEncoder
+    exact = exact_types(full)
+    decs = subtype_decoders(exact)
+    dec, subs = decs["full"]
+    sub_obj = json.loads(json.dumps(full), cls=dec)
+    if cls not in exact and type(sub_obj) not in subs.values():
+        yield "subtype-construction", f"/: reading a {cls} with object_class overrides gave a {type(sub_obj).__name__}", {}
+        return
+    full_sub = json.loads(json.dumps(sub_obj, cls=AASToJsonEncoder))
+    want = strip_json(full_sub)
+    for enc_name, enc in (("StrippedAASToJsonEncoder", StrippedAASToJsonEncoder), ("user subclass with stripped = True", USER_ENCODER)):
+        try:
+            got = json.loads(json.dumps(sub_obj, cls=enc))
+        except Exception as e:
+            got = {"_raised": f"{type(e).__name__}: {str(e)[:120]}"}
+        if got != want:
+            yield "writer-subtype", aasgen.diff(want, got) or "?", {"encoder": enc_name, "full_json_of_subtype_object": full_sub,
+                                                                    "rendered": got, "type": type(sub_obj).__name__}
+    for key in ("stripped", "strict-stripped"):
+        o2 = json.loads(json.dumps(full), cls=decs[key][0])
+        d = aasgen.diff(want_canon, c03.strip_type(aasgen.canon(o2)))
+        if not d and cls not in exact and type(o2) not in decs[key][1].values():
+            d = f"/: object_class override ignored, got a {type(o2).__name__}"
+        if d:
+            yield "json-reader-subtype", d, {"decoder": key}
+
+
+# ---- the AASX package reader as an entry point of both readers: read_into(..., stripped=True, failsafe=...) hands its keyword
+# arguments to read_aas_json_file / read_aas_xml_file depending on the format of the AAS part
+def aasx_stripped_reads(store):
+    """writes `store` into two in-memory packages (AAS part as JSON / as XML) and reads each back with stripped=True in both
+    failsafe modes.  Returns [((part format, failsafe), canonical store read or exception text)]"""
+    from basyx.aas import model
+    from basyx.aas.adapter import aasx
+    out = []
+    for write_json in (True, False):
+        buf = io.BytesIO()
+        with aasx.AASXWriter(buf) as w:
+            w.write_all_aas_objects("/aasx/data." + ("json" if write_json else "xml"), store,
+                                    aasx.DictSupplementaryFileContainer(), write_json=write_json)
+        for failsafe in (True, False):
+            try:
+                got = model.DictObjectStore()
+                with aasx.AASXReader(io.BytesIO(buf.getvalue())) as r:
+                    r.read_into(got, aasx.DictSupplementaryFileContainer(), stripped=True, failsafe=failsafe)
+                res = c03.strip_type(aasgen.canon_store(got))
+            except Exception as e:
+                res = f"/: raised {type(e).__name__}: {str(e)[:120]}"
+            out.append((("json" if write_json else "xml", failsafe), res))
+    return out
+
+
+def aasx_case(store, want):
+    for (fmt, failsafe), res in aasx_stripped_reads(store):
+        d = res if isinstance(res, str) else aasgen.diff(want, res)
+        if d:
+            yield fmt, failsafe, d
+
+
 _HTTP_SM = None
 
 
@@ -314,6 +436,14 @@ def _run(chk):
                         chk.fail(sig("json-reader", d),
                                  f"stripped JSON reader ({'failsafe' if fs_ else 'strict'}) on the {name} document of a {cls}: {d}",
                                  {"class": cls, "document": doc})
+            # instances of application-defined subtypes of the metamodel classes (constructed the documented way, through the
+            # readers' object_class parameters) are objects of those classes: same stripped rendering, same stripped reading
+            for kind, d, data in subtype_case(cls, full, strip_canon(c03.strip_type(aasgen.canon(obj)))):
+                chk.fail(sig(kind, d), f"{kind} ({cls} read with object_class = application-defined subtypes"
+                         f"{', rendered by ' + data['encoder'] if 'encoder' in data else ''}): "
+                         f"{'stripped JSON is not the full JSON of the same object minus the detachable members: ' if kind == 'writer-subtype' else ''}{d}",
+                         dict(data, kind=kind, **{"class": cls, "full_json": full}))
+            chk.count("subtype-object:" + cls)
             # the stripped XML reader on the single element (reaches classes that only occur below detachable parts)
             from basyx.aas.adapter.xml import object_to_xml_element, read_aas_xml_element, XMLConstructables
             from lxml import etree
@@ -382,6 +512,13 @@ def _run(chk):
                              f"{'stripped' if st else 'full'} JSON document written through destination '{how}' with {sorted(kw)} "
                              f"differs from the one written to a text stream: {d}", {"destination": how, "kw": sorted(kw),
                                                                                      "stripped": st, "document": docs[("json", st)][:3000]})
+        # the AASX package reader forwards stripped / failsafe to the reader of the part's format: same result for both formats
+        for fmt, failsafe, d in aasx_case(store, want):
+            chk.fail(sig(f"aasx-{fmt}-reader", d),
+                     f"AASXReader.read_into(stripped=True, failsafe={failsafe}) on a package whose AAS part is {fmt.upper()} does not "
+                     f"deliver the objects with the detachable parts removed: {d}",
+                     {"kind": "aasx-reader", "part_format": fmt, "failsafe": failsafe, "document": docs[("json", False)]})
+        chk.count("aasx-reader:stripped")
         want_full = c03.strip_type(aasgen.canon_store(store))
         for (fmt, st), text in docs.items():
             # a full read of the same document before (even stores) or after (odd stores) the stripped reads: the two kinds
@@ -460,6 +597,24 @@ def replay(path):
         found = [(kind, s, d) for kind, s, d in http_response_case(obj, rp["full_json"], rp["index"], ks=[k] if k else None)]
         for kind, s, d in found:
             print(f"REPRODUCED {kind} level={s['level']} k={s.get('k')}: {d}")
+        if not found:
+            print("not reproduced on this tree")
+        return 1 if found else 0
+    if isinstance(rp, dict) and rp.get("kind") in ("writer-subtype", "json-reader-subtype", "subtype-construction"):
+        from basyx.aas.adapter.json import AASFromJsonDecoder
+        obj = json.loads(json.dumps(rp["full_json"]), cls=AASFromJsonDecoder)
+        found = list(subtype_case(rp["class"], rp["full_json"], strip_canon(c03.strip_type(aasgen.canon(obj)))))
+        for kind, d, data in found:
+            print(f"REPRODUCED {kind} {data.get('encoder') or data.get('decoder') or ''}: {d}")
+        if not found:
+            print("not reproduced on this tree")
+        return 1 if found else 0
+    if isinstance(rp, dict) and rp.get("kind") == "aasx-reader":
+        from basyx.aas.adapter.json import read_aas_json_file
+        store = read_aas_json_file(io.StringIO(rp["document"]), failsafe=False)
+        found = list(aasx_case(store, strip_canon(c03.strip_type(aasgen.canon_store(store)))))
+        for fmt, failsafe, d in found:
+            print(f"REPRODUCED aasx part={fmt} failsafe={failsafe}: {d}")
         if not found:
             print("not reproduced on this tree")
         return 1 if found else 0
